@@ -133,6 +133,10 @@ class Hooks:
         """Return an ast.FunctionDef to inline for this call, or None."""
         return None
 
+    # canonicalise d.pop(k, default) / d.get(k[, default]) / d.setdefault(k, v) into the membership
+    # atom `k In d` (so that the idiom and the explicit `if k in d:` form give the same table)
+    dict_idioms = True
+
 
 class State:
     def __init__(self, hooks, assign):
@@ -162,6 +166,11 @@ class State:
         for k in [k for k in self.mem if _base(k) == base]:
             del self.mem[k]
 
+    def store_key(self, tt):
+        """a store to an attribute / element invalidates what is known about that location only"""
+        for k in [k for k in self.mem if k == tt or k.startswith(tt + ".") or k.startswith(tt + "[")]:
+            del self.mem[k]
+
     def vkey(self, text):
         b = _base(text)
         v = self.version.get(b, 0)
@@ -175,13 +184,57 @@ def _base(text):
     return text[:i]
 
 
+FUNC_INDEX = {}  # id(ast FunctionDef) -> FuncInfo (filled by sa.model)
+
+
 class Evaluator:
     def __init__(self, hooks: Hooks, max_paths=20000):
         self.hooks = hooks
         self.max_paths = max_paths
+        self.fi = None
+
+    def _one_sided_helper(self, c, ftext):
+        """A call to a function of the same module that exists only on one side of the
+        (analysed tree, reviewed snapshot) pair is an extract-method / inline-method
+        refactoring: interpret the callee's body in place."""
+        fi = self.fi
+        if fi is None:
+            return None
+        name = None
+        if isinstance(c.func, ast.Name):
+            name = c.func.id
+        elif isinstance(c.func, ast.Attribute) and isinstance(c.func.value, ast.Name) and c.func.value.id in ("self", "cls"):
+            name = c.func.attr
+        elif isinstance(c.func, ast.Attribute) and fi.cls is not None and u(c.func.value) == fi.cls.name:
+            name = c.func.attr
+        if name is None:
+            return None
+        m = fi.module
+        cand = None
+        p = fi
+        while p is not None and cand is None:
+            cand = m.functions.get(p.qualname + "." + name)
+            p = p.parent
+        if cand is None and fi.cls is not None and isinstance(c.func, ast.Attribute):
+            cand = fi.cls.find_method(name)
+        if cand is None and isinstance(c.func, ast.Name):
+            cand = m.functions.get(name)
+        if cand is None or cand.node is fi.node:
+            return None
+        try:
+            from .review import other_side
+
+            o = other_side(m.repo)
+            om = o.modules.get(m.name)
+            if om is None or cand.qualname in om.functions:
+                return None
+        except Exception:
+            return None
+        return cand.node
 
     # -- public ----------------------------------------------------------
     def paths(self, fn: ast.FunctionDef, params=None, body=None):
+        self.fi = FUNC_INDEX.get(id(fn))
         results = []
         work = [dict()]
         seen = set()
@@ -267,7 +320,7 @@ class Evaluator:
                 st.env[s.target.id] = new
                 st.effect("aug", tt, type(s.op).__name__, v)
             else:
-                tt = self.subst_text(s.target, st)
+                tt = self.subst_text(s.target, st, lvalue=True)
                 r = self.hooks.on_store(tt, ("aug", type(s.op).__name__, v), st)
                 if r is NOTHING:
                     st.effect("aug", tt, type(s.op).__name__, v)
@@ -307,7 +360,7 @@ class Evaluator:
             return
         if isinstance(s, ast.Delete):
             for t in s.targets:
-                tt = self.subst_text(t, st)
+                tt = self.subst_text(t, st, lvalue=True)
                 r = self.hooks.on_store(tt, ("del",), st)
                 if r is NOTHING:
                     st.effect("del", tt)
@@ -328,11 +381,14 @@ class Evaluator:
                 else:
                     self.assign(e, Sym(f"{vtext(v)}[{i}]"), st)
             return
-        tt = self.subst_text(t, st)
+        tt = self.subst_text(t, st, lvalue=True)
         r = self.hooks.on_store(tt, v, st)
         if r is NOTHING:
             st.effect("store", tt, v)
-        st.bump(_base(tt))
+        if "[" in tt:
+            st.bump(_base(tt))  # an element store may alias other element reads of the same container
+        else:
+            st.store_key(tt)
         st.mem[tt] = v
 
     def loop(self, s, st):
@@ -392,7 +448,7 @@ class Evaluator:
             if i >= k + 1:
                 st.effect("loop-bound", u(s.test))
                 break
-            if not self.truth(s.test, st, suffix=f"#it{i}" if i else ""):
+            if not self.truth(s.test, st):
                 break
             try:
                 self.block(s.body, st)
@@ -463,7 +519,7 @@ class Evaluator:
         return False
 
     # -- expressions -------------------------------------------------------
-    def subst_text(self, e, st):
+    def subst_text(self, e, st, lvalue=False):
         """Text of an l-value / call receiver with local aliases substituted."""
         if isinstance(e, ast.Name):
             v = st.env.get(e.id, NOTHING)
@@ -471,7 +527,10 @@ class Evaluator:
                 return v.text
             return e.id
         if isinstance(e, ast.Attribute):
-            return f"{self.subst_text(e.value, st)}.{e.attr}"
+            tt = f"{self.subst_text(e.value, st)}.{e.attr}"
+            if not lvalue and isinstance(st.mem.get(tt), Sym):
+                return st.mem[tt].text  # the location was assigned a symbolic value: denote it by that value
+            return tt
         if isinstance(e, ast.Subscript):
             sv = self.ev(e.slice, st) if not isinstance(e.slice, ast.Slice) else Sym(u(e.slice))
             return f"{self.subst_text(e.value, st)}[{vtext(sv)}]"
@@ -518,8 +577,10 @@ class Evaluator:
         if isinstance(e, ast.BoolOp):
             # value semantics of and/or on symbolic operands: fork on truthiness
             last = None
-            for x in e.values:
+            for i, x in enumerate(e.values):
                 last = self.ev(x, st)
+                if i == len(e.values) - 1:
+                    return last  # the value of the last operand is the result, whatever its truth
                 t = self.truth_of(last, st)
                 if isinstance(e.op, ast.And) and not t:
                     return last
@@ -599,9 +660,78 @@ class Evaluator:
         r = self.hooks.on_call(c, ftext, args, kwargs, st)
         if r is not NOTHING:
             return r
+        if ftext == "isinstance" and len(args) == 2 and isinstance(args[1], tuple) and not kwargs:
+            # isinstance(x, (A, B)) == isinstance(x, A) or isinstance(x, B)
+            for t in args[1]:
+                if self.truth_of(Sym(st.vkey(f"isinstance({vtext(args[0])}, {vtext(t)})")), st):
+                    return True
+            return False
         target = self.hooks.inline(c, ftext, st)
+        if target is None:
+            target = self._one_sided_helper(c, ftext)
         if target is not None and st.depth < 3:
             return self.inline_call(target, c, args, kwargs, st)
+        if self.hooks.dict_idioms and isinstance(c.func, ast.Attribute) and not kwargs:
+            recv = ftext[: -len(c.func.attr) - 1]
+            attr = c.func.attr
+            if attr == "pop" and len(args) == 2:
+                if st.atom(st.vkey(f"{vtext(args[0])} In {recv}")):
+                    val = Sym(st.vkey(f"{recv}[{vtext(args[0])}]"))
+                    tt = f"{recv}[{vtext(args[0])}]"
+                    if self.hooks.on_store(tt, ("del",), st) is NOTHING:
+                        st.effect("del", tt)
+                    st.bump(_base(recv))
+                    return val
+                return args[1]
+            if attr == "get" and len(args) in (1, 2) and not isinstance(st.env.get(_base(recv)), (list, tuple)):
+                if st.atom(st.vkey(f"{vtext(args[0])} In {recv}")):
+                    return Sym(st.vkey(f"{recv}[{vtext(args[0])}]"))
+                return args[1] if len(args) == 2 else None
+            if attr == "setdefault" and len(args) == 2:
+                tt = f"{recv}[{vtext(args[0])}]"
+                if not st.atom(st.vkey(f"{vtext(args[0])} In {recv}")):
+                    if self.hooks.on_store(tt, args[1], st) is NOTHING:
+                        st.effect("store", tt, args[1])
+                    st.bump(_base(recv))
+                    st.mem[tt] = args[1]
+                    return args[1]
+                return Sym(st.vkey(tt))
+        if ftext == "next" and len(c.args) in (1, 2) and isinstance(c.args[0], ast.GeneratorExp) and len(c.args[0].generators) == 1:
+            # next((elt for x in S if P(x)), default)  ==  first-match loop
+            g = c.args[0].generators[0]
+            it = self.ev(g.iter, st)
+            ittext = vtext(it)
+            st.counter += 1
+            lid = f"{ittext}#L{st.counter}"
+            items = it if isinstance(it, (list, tuple)) else None
+            i = 0
+            saved = dict(st.env)
+            try:
+                while True:
+                    if items is not None:
+                        if i >= len(items):
+                            break
+                        item = items[i]
+                    else:
+                        if i >= self.hooks.unroll:
+                            st.effect("loop-bound", ittext)
+                            break
+                        if not st.atom(f"more({lid},{i})"):
+                            break
+                        item = Sym(f"{ittext}[{i}]", tag=("item", ittext, i))
+                    self.assign(g.target, item, st)
+                    if all(self.truth(cond, st) for cond in g.ifs):
+                        return self.ev(c.args[0].elt, st)
+                    i += 1
+            finally:
+                for k in list(st.env):
+                    if k not in saved:
+                        del st.env[k]
+                    else:
+                        st.env[k] = saved[k]
+            if len(c.args) == 2:
+                return self.ev(c.args[1], st)
+            raise _Raise("StopIteration()")
         argt = ", ".join([vtext(a) for a in args] + [f"{k}={vtext(v)}" for k, v in kwargs.items()])
         text = f"{ftext}({argt})"
         if as_stmt or not self.hooks.pure(ftext):
@@ -681,6 +811,21 @@ class Evaluator:
         return result
 
     def _cmp1(self, op, l, r, st):
+        # len(x) compared with 0 / 1 is the emptiness test of x
+        for a, b, flip in ((l, r, False), (r, l, True)):
+            if isinstance(a, Sym) and a.tag and a.tag[0] == "call" and a.tag[1] == "len" and len(a.tag[2]) == 1 and isinstance(b, int) and not isinstance(b, bool):
+                x = a.tag[2][0]
+                name = type(op).__name__
+                if flip:
+                    name = {"Lt": "Gt", "Gt": "Lt", "LtE": "GtE", "GtE": "LtE"}.get(name, name)
+                nonempty = None
+                if (name, b) in (("Eq", 0), ("Lt", 1), ("LtE", 0)):
+                    nonempty = False
+                elif (name, b) in (("NotEq", 0), ("Gt", 0), ("GtE", 1)):
+                    nonempty = True
+                if nonempty is not None and isinstance(x, (Sym, list, tuple, dict, str)):
+                    t = self.truth_of(x, st)
+                    return t if nonempty else not t
         sym = isinstance(l, Sym) or isinstance(r, Sym) or _has_sym(l) or _has_sym(r)
         if not sym:
             try:
@@ -719,6 +864,8 @@ class Evaluator:
         elif name == "LtE":
             name, neg = "Gt", True
         lt, rt = vtext(l), vtext(r)
+        if name == "In" and rt.endswith(".keys()"):
+            rt = rt[: -len(".keys()")]
         if name in ("Eq", "Is"):
             # None / constants: `x is None` and `x == None` are the same atom
             name = "Eq"
